@@ -165,6 +165,9 @@ def _image(kind, cls, arr, role, stamp=None):
     import darsia
 
     meta = {"dimensions": [1.5, 2.0], "origin": [3.0, -2.0]}
+    if role == "probe" and stamp in ("mixed", "impulses"):
+        # a probe of the same pixel shape in another physical frame than the baseline (other extent, other origin)
+        meta = {"dimensions": [3.0, 1.0], "origin": [-1.5, 4.25]}
     if role == "probe" and stamp == "mixed2":
         meta.update(time=0.0, name="probe")  # a relative time of exactly zero, no date
     elif role == "probe" and stamp == "small":
